@@ -340,7 +340,6 @@ func build(tier string) []*explore.Scenario {
 		{Listeners: 1, Inbound: 2},
 		{Connects: 1},
 		{Connects: 2},
-		{Listeners: 1, Inbound: 1, Connects: 1},
 		{Listeners: 1, LClose: true},
 		{Listeners: 1, LClose: true, Relisten: true},
 		{Listeners: 2, Inbound: 1, EarlyShut: true},
@@ -349,6 +348,9 @@ func build(tier string) []*explore.Scenario {
 		{Listeners: 1, Inbound: 1, ParentCancel: true},
 		{Listeners: 1, Connects: 1, ParentCancel: true},
 		{Connects: 1, StalledWriter: true},
+	}
+	if tier == "thorough" {
+		plans = append(plans, plan{Listeners: 1, Inbound: 1, Connects: 1}) // (half of the quick budget on its own)
 	}
 	var scs []*explore.Scenario
 	for _, p := range plans {
